@@ -1,5 +1,5 @@
 (* C14 — proofs about the ranking / crowding / rank-selection model (Models/C14.v). *)
-From Coq Require Import List ZArith Bool Lia.
+From Coq Require Import List ZArith Bool Lia Permutation.
 From Verif Require Import Models.C14.
 Import ListNotations.
 Import C14.
@@ -597,6 +597,112 @@ Proof.
     destruct Hx as [<-|[<-|[<-|[]]]]; destruct Hy as [<-|[<-|[<-|[]]]]; cbn; intro; try reflexivity; discriminate.
   - intros [fs [E Hch]]. vm_compute in E. inversion E; subst fs. cbn [chain] in Hch.
     destruct Hch as [Hf _]. vm_compute in Hf. discriminate.
+Qed.
+
+(* ---------- the fronts partition the population ---------- *)
+Lemma filter_partition_perm {A} (P : A -> bool) l :
+  Permutation (filter P l ++ filter (fun x => negb (P x)) l) l.
+Proof.
+  induction l as [|x r IH]; cbn [filter]; [constructor|].
+  destruct (P x); cbn [negb app].
+  - constructor. exact IH.
+  - eapply Permutation_trans; [apply Permutation_sym, Permutation_middle|]. constructor. exact IH.
+Qed.
+
+Lemma later_fronts_complete : forall fuel goals pop ranked rem,
+  consistent rem -> (length rem <= fuel)%nat -> ranked + Z.of_nat (length rem) <= pop ->
+  Permutation (concat (later_fronts fuel goals pop ranked rem)) rem.
+Proof.
+  induction fuel as [|f IH]; intros goals pop ranked rem Hc Hf Hp.
+  - destruct rem; [constructor|cbn [length] in Hf; lia].
+  - cbn [later_fronts]. destruct rem as [|x r] eqn:Er; [rewrite andb_false_r; constructor|].
+    rewrite <- Er in *. assert (Hl : (1 <= length rem)%nat) by (rewrite Er; cbn [length]; lia).
+    assert (Hlt : ranked <? pop = true) by lia. rewrite Hlt.
+    replace (is_nil rem) with false by (rewrite Er; reflexivity). cbn [negb andb concat].
+    rewrite nds_exact by exact Hc. rewrite remove_filter by exact Hc.
+    pose proof (filter_length_split (ndb goals rem) rem) as Hs.
+    pose proof (nds_nonempty goals rem Hc ltac:(rewrite Er; discriminate)) as Hn.
+    rewrite nds_exact in Hn by exact Hc.
+    assert (1 <= length (filter (ndb goals rem) rem))%nat.
+    { destruct (filter (ndb goals rem) rem); [congruence|cbn [length]; lia]. }
+    eapply Permutation_trans; [|apply (filter_partition_perm (ndb goals rem))].
+    apply Permutation_app_head. apply IH.
+    + eapply consistent_incl; [exact Hc|]. intros y Hy. apply filter_In in Hy. tauto.
+    + lia.
+    + lia.
+Qed.
+
+Lemma remove_first_perm l x :
+  consistent l -> In x l -> Permutation (x :: remove_first (key x) l) l.
+Proof.
+  induction l as [|y r IH]; intros Hc Hx; [destruct Hx|]. cbn [remove_first].
+  destruct (key y =? key x) eqn:E.
+  - apply Z.eqb_eq in E. assert (y = x) by (apply Hc; [left; reflexivity|exact Hx|exact E]). subst. apply Permutation_refl.
+  - apply Z.eqb_neq in E. destruct Hx as [->|Hx]; [congruence|].
+    eapply Permutation_trans; [apply perm_swap|]. constructor. apply IH; [|exact Hx].
+    eapply consistent_incl; [exact Hc|apply incl_tl, incl_refl].
+Qed.
+
+Lemma in_remove_first_other k l y : In y l -> key y <> k -> In y (remove_first k l).
+Proof.
+  induction l as [|x r IH]; intros Hy Hk; [destruct Hy|]. cbn [remove_first].
+  destruct (key x =? k) eqn:E.
+  - apply Z.eqb_eq in E. destruct Hy as [->|Hy]; [congruence|exact Hy].
+  - destruct Hy as [->|Hy]; [left; reflexivity|right; apply IH; assumption].
+Qed.
+
+Lemma remove_list_perm : forall xs l,
+  consistent l -> NoDup (map key xs) -> incl xs l -> Permutation (xs ++ remove_list xs l) l.
+Proof.
+  induction xs as [|x r IH]; intros l Hc Hnd Hin; [apply Permutation_refl|].
+  unfold remove_list. cbn [fold_left app]. fold (remove_list r (remove_first (key x) l)).
+  inversion Hnd as [|k ks Hnk Hnd']; subst.
+  eapply Permutation_trans; [|apply (remove_first_perm l x Hc); apply Hin; left; reflexivity].
+  constructor. apply IH.
+  - eapply consistent_incl; [exact Hc|apply remove_first_incl].
+  - exact Hnd'.
+  - intros y Hy. apply in_remove_first_other; [apply Hin; right; exact Hy|].
+    intro Hk. apply Hnk. rewrite <- Hk. apply in_map. exact Hy.
+Qed.
+
+Lemma kmem_false k l : kmem k l = false -> ~ In k (map key l).
+Proof.
+  intros H Hin. apply in_map_iff in Hin. destruct Hin as [x [Hk Hx]].
+  assert (kmem k l = true) by (apply kmem_true; exists x; auto). congruence.
+Qed.
+
+Lemma nodup_snoc {A} (a : A) l : NoDup l -> ~ In a l -> NoDup (l ++ [a]).
+Proof.
+  intros Hn Hi. apply (NoDup_Add (Add_app a l [])). rewrite app_nil_r. split; assumption.
+Qed.
+
+Lemma zero_loop_nodup sols : forall goals coins front,
+  NoDup (map key front) -> NoDup (map key (fst (zero_loop goals sols coins front))).
+Proof.
+  induction goals as [|g r IH]; intros coins front Hnd; cbn [zero_loop]; [exact Hnd|].
+  destruct (best_for g sols None coins) as [[b|] coins']; apply IH; [|exact Hnd].
+  unfold oadd. destruct (kmem (key b) front) eqn:E; [exact Hnd|].
+  rewrite map_app. cbn [map]. apply nodup_snoc; [exact Hnd|apply kmem_false; exact E].
+Qed.
+
+(* with room for everybody (configured population >= number of individuals) the fronts partition the
+   population: every individual is in exactly one front *)
+Lemma ranking_partition goals pop sols coins :
+  sols <> [] -> consistent sols ->
+  Z.of_nat (length (zero_front goals sols coins)) < pop -> Z.of_nat (length sols) <= pop ->
+  Permutation (concat (ranking goals pop sols coins)) sols.
+Proof.
+  intros Hne Hc Hlt Hall. unfold ranking. destruct sols as [|s0 r0] eqn:Es; [congruence|]. rewrite <- Es in *.
+  apply Z.ltb_lt in Hlt. rewrite Hlt. cbn [concat].
+  set (zero := zero_front goals sols coins) in *.
+  assert (Hperm : Permutation (zero ++ remove_list zero sols) sols).
+  { apply remove_list_perm; [exact Hc| |apply zero_front_incl; assumption].
+    unfold zero, zero_front. apply zero_loop_nodup. constructor. }
+  eapply Permutation_trans; [|exact Hperm]. apply Permutation_app_head.
+  apply later_fronts_complete.
+  - eapply consistent_incl; [exact Hc|apply remove_list_incl].
+  - lia.
+  - apply Permutation_length in Hperm. rewrite app_length in Hperm. lia.
 Qed.
 
 (* ---------- fast_epsilon_dominance_assignment ---------- *)
